@@ -41,13 +41,14 @@ def _worker(idx):
     try:
         fam = spec.run(_PROG, _TIER)
         if fam.error is None:
-            for o in fam.obls:
-                o.verdict = solver.prove(o.assumptions, o.goal, seed=_SEED)
+            discharge_all(fam, _SEED)
         recs = []
         for o in fam.obls:
             r = o.record()
             if o.verdict is not None and o.verdict.status == "failed":
                 r["model"] = extract_model(o)
+                from . import replay
+                r["scenario"] = replay.build_scenario(o.res.interp, o.res, o.verdict.model) if getattr(o, "res", None) else None
             if o.verdict is not None and o.verdict.status == "unknown":
                 r["reason"] = o.verdict.reason
             recs.append(r)
@@ -59,6 +60,24 @@ def _worker(idx):
         return {"family": spec.name, "props": sorted(spec.props), "functions": spec.functions,
                 "error": "engine: " + traceback.format_exc(), "paths": 0, "stats": {}, "obls": [],
                 "explore_s": 0, "wall_s": round(time.time() - t0, 3), "bounded": None}
+
+
+def discharge_all(fam, seed=0, timeout_ms=solver.DEFAULT_TIMEOUT_MS):
+    """Discharge every obligation of a family; identical queries (same hash-consed
+    assumptions and goal, which happens for mid-path obligations on a shared path prefix)
+    are sent to the solver once."""
+    cache = {}
+    for o in fam.obls:
+        if z3.is_true(o.goal):
+            o.verdict = solver.Verdict("proved", 0.0, "trivial")
+            continue
+        key = (tuple(sorted(f.get_id() for f in o.assumptions)), o.goal.get_id())
+        if key in cache:
+            v = cache[key]
+            o.verdict = solver.Verdict(v.status, 0.0, v.backend + "(shared)", v.model, v.n_instances, v.reason)
+            continue
+        o.verdict = solver.prove(o.assumptions, o.goal, timeout_ms=timeout_ms, seed=seed)
+        cache[key] = o.verdict
 
 
 def extract_model(o):
